@@ -228,13 +228,14 @@ Section Repair.
     fo_idx : forall e, In e fm -> fe_idx e < length buf
   }.
 
-  (* collision freedom on the blocks involved: junk never passes a hash test; a block of a vector encoded by some
-     parity block read passes the hash test of entry e only if it is the recorded block *)
+  (* collision freedom on the blocks involved: junk never passes a hash test; a block (at ANY position: with plain xor
+     parity a block of another position can come out, see FixModel.reconstruct) of a vector encoded by some parity block
+     read passes the hash test of entry e only if it is the recorded block of e *)
   Definition cf_junk (fm : list fent) : Prop :=
     forall e x, In e fm -> is_junk x -> blockcmp (fe_hash e) (fe_len e) x = false.
   Definition cf_rec (fm : list fent) (rec : list penc) (v : list bid) : Prop :=
-    forall l w e, nth l rec PNone = PEnc w -> In e fm ->
-                  blockcmp (fe_hash e) (fe_len e) (vnth w (fe_idx e)) = true -> vnth w (fe_idx e) = vnth v (fe_idx e).
+    forall l w i e, nth l rec PNone = PEnc w -> In e fm ->
+                    blockcmp (fe_hash e) (fe_len e) (vnth w i) = true -> vnth w i = vnth v (fe_idx e).
   Definition hv_ok (fm : list fent) (v : list bid) : Prop :=
     forall e, In e fm -> blockcmp (fe_hash e) (fe_len e) (vnth v (fe_idx e)) = true.
 
@@ -277,9 +278,10 @@ Section Repair.
         * exists gip. split; [|exact Hgood]. destruct Hgin as [E|Hin]; [|exact Hin]. subst gip. exfalso.
           apply existsb_exists in Epn. destruct Epn as [l [Hl Hp]]. specialize (Hgood l Hl).
           unfold good_level in Hgood. destruct (nth l rec PNone); simpl in *; congruence.
-      + destruct (reconstruct F (map (fun l => nth l rec PNone) ip) buf jn) as [buf' jn'] eqn:ER.
-        assert (Hlen : length buf' = length buf) by (pose proof (reconstruct_length F (map (fun l => nth l rec PNone) ip) buf jn) as X; rewrite ER in X; exact X).
-        assert (Hout : forall i, ~ In i F -> vnth buf' i = vnth buf i) by (intros i Hi; pose proof (reconstruct_outside F (map (fun l => nth l rec PNone) ip) buf jn i Hi) as X; rewrite ER in X; exact X).
+      + set (x1 := match ip with [O] => true | _ => false end).
+        destruct (reconstruct x1 F (map (fun l => nth l rec PNone) ip) buf jn) as [buf' jn'] eqn:ER.
+        assert (Hlen : length buf' = length buf) by (pose proof (reconstruct_length x1 F (map (fun l => nth l rec PNone) ip) buf jn) as X; rewrite ER in X; exact X).
+        assert (Hout : forall i, ~ In i F -> vnth buf' i = vnth buf i) by (intros i Hi; pose proof (reconstruct_outside x1 F (map (fun l => nth l rec PNone) ip) buf jn i Hi) as X; rewrite ER in X; exact X).
         assert (Hok' : fm_ok fm buf') by (destruct Hok as [A B C]; constructor; auto; intros e He; rewrite Hlen; auto).
         destruct (hash_matching hashf padz bs fm buf') eqn:EH.
         * (* accepted: it is the recorded vector *)
@@ -287,11 +289,19 @@ Section Repair.
           intros i Hi. destruct (memn i F) eqn:Em; [|apply Hout; apply memn_false; exact Em].
           apply memn_spec in Em. apply in_map_iff in Em. destruct Em as [e [Ee He]]. subst i.
           rewrite (hash_matching_true fm buf' buf' Hok') in EH.
-          pose proof (reconstruct_cases F (map (fun l => nth l rec PNone) ip) buf jn) as [C|C]; rewrite ER in C; simpl in C.
+          pose proof (reconstruct_cases x1 F (map (fun l => nth l rec PNone) ip) buf jn) as C; rewrite ER in C; cbn [fst] in C.
+          destruct C as [_ [_ [C|[C|C]]]].
           -- destruct C as [w [rs [Eu [_ [_ Hw]]]]].
              rewrite Hw by (auto using InF).
              destruct ip as [|l0 ipt]; [discriminate|]. simpl in Eu. injection Eu as E0 _.
-             apply (Hr l0 w e E0 He). rewrite <- Hw by (auto using InF). apply EH. exact He.
+             apply (Hr l0 w (fe_idx e) e E0 He). rewrite <- Hw by (auto using InF). apply EH. exact He.
+          -- destruct C as [w [j [i [Eu [EF Hw]]]]].
+             assert (Ej : fe_idx e = j).
+             { pose proof (InF e He) as X. rewrite EF in X. destruct X as [X|[]]. auto. }
+             assert (Hi' : j < length buf) by (rewrite <- Ej; exact Hi).
+             rewrite Ej, (Hw Hi'). rewrite <- Ej.
+             destruct ip as [|l0 ipt]; [discriminate|]. simpl in Eu. injection Eu as E0 _.
+             apply (Hr l0 w i e E0 He). specialize (EH e He). rewrite Ej, (Hw Hi') in EH. exact EH.
           -- exfalso. specialize (C (fe_idx e) (InF e He) Hi).
              specialize (EH e He). rewrite (Hj e _ He C) in EH. discriminate.
         * (* rejected: it was not an all-good combination *)
@@ -305,7 +315,7 @@ Section Repair.
               unfold good_level, par_matches in Hgood. rewrite El in Hgood. destruct p as [v'|t|]; try discriminate. eauto. }
             assert (Hnn : map (fun l => nth l rec PNone) ip <> []).
             { specialize (Hne ip (or_introl eq_refl)). destruct ip; [congruence | discriminate]. }
-            destruct (reconstruct_good F _ buf jn v Hnn Hall Hag) as [_ Hres]. rewrite ER in Hres. simpl in Hres.
+            destruct (reconstruct_good x1 F _ buf jn v Hnn Hall Hag) as [_ Hres]. rewrite ER in Hres. simpl in Hres.
             assert (EH' : hash_matching hashf padz bs fm buf' = true).
             { apply (hash_matching_true fm buf' buf' Hok'). intros e He.
               rewrite Hres by (apply (fo_idx _ _ Hok); exact He).
@@ -466,7 +476,7 @@ Section RepairAll.
       destruct (repair_step_good hashf padz bs nlev pos fm1 rec v buf1 jn Hok) as [buf2 [jn2 [tags2 [E R]]]].
       + intros e He. apply Hhv. auto.
       + intros e x He. apply Hj. auto.
-      + intros l w e El He. apply (Hr l w e El). auto.
+      + intros l w i e El He. apply (Hr l w i e El). auto.
       + exact Hag1.
       + etransitivity; [exact Hcnt|]. simpl. exact Hn.
       + assert (Efm1' : match fm1 with [] => true | _ => false end = false) by (rewrite Efm1; reflexivity).
